@@ -118,6 +118,47 @@ func (e *Enc) extCall(ins ssa.Instruction, name string, callee *ssa.Function, si
 		e.assert(e.refOld(rs[1], h))
 		e.setResult(res, rs)
 		return true
+	case "bytes.NewReader", "bytes.NewBuffer":
+		trust("returns a fresh reader over the given bytes: at most len(b) bytes can ever be read from it")
+		o := e.newObj(h)
+		rs := e.freshResults(sig, h)
+		e.assert(app("=", rs[0].T, o))
+		e.noteRoot(rs[0].T, "Ref", o)
+		h.m["$consumed"] = app("store", e.heapGet(h, "$consumed", "Int"), rs[0].T, "0")
+		h.m["$limit"] = app("store", e.heapGet(h, "$limit", "Int"), rs[0].T, app("slen", args[0].T))
+		e.setResult(res, rs)
+		return true
+	case "encoding/json.Unmarshal":
+		trust("total (returns an error on malformed input); writes only memory reachable from its target argument")
+		ci := ins.(ssa.CallInstruction).Common()
+		var except []string
+		isolated := false
+		if mi, ok := ci.Args[1].(*ssa.MakeInterface); ok {
+			if sites, ok := e.isolatedFreshTarget(mi.X); ok {
+				isolated = true
+				for _, st := range sites {
+					if v, known := e.vals[st]; known {
+						if v.S == "Slice" {
+							except = append(except, e.rootOf(app("sarr", v.T)))
+						} else {
+							except = append(except, e.rootOf(v.T))
+						}
+					} else {
+						isolated = false
+					}
+				}
+			}
+		}
+		if isolated {
+			e.havocAllFramed(h, e.allocCounter(h), except)
+		} else {
+			e.havocAll(h)
+		}
+		rs := e.freshResults(sig, h)
+		e.havocKey(h, "$A")
+		e.assert(e.refOld(rs[0], h))
+		e.setResult(res, rs)
+		return true
 	case "bytes.Equal":
 		trust("total; true implies equal lengths")
 		rs := e.freshResults(sig, h)
@@ -231,7 +272,12 @@ func (e *Enc) havocBytesOf(h *Heap, buf Val) {
 // readerConsume: ghost accounting of bytes taken from an io.Reader (used by C09's bytesRead bound).
 func (e *Enc) readerConsume(ins ssa.Instruction, r Val, n string) {
 	c := e.heapGet(e.cur, "$consumed", "Int")
-	e.cur.m["$consumed"] = app("store", c, r.T, app("+", app("select", c, r.T), n))
+	// an io.Reader handed over as an interface value wrapping a *bytes.Reader made here: same ghost identity
+	id := r.T
+	nc := app("+", app("select", c, id), n)
+	e.cur.m["$consumed"] = app("store", c, id, nc)
+	lim := app("select", e.heapGet(e.cur, "$limit", "Int"), id)
+	e.assert(implies(e.reach[e.curBlock], implies(app(">=", lim, "0"), app("<=", nc, lim))))
 }
 
 // bigCall: math/big.Int modelled by a ghost heap $big : object -> mathematical integer.
@@ -370,4 +416,66 @@ func (e *Enc) bigCall(ins ssa.Instruction, name string, callee *ssa.Function, si
 		return false
 	}
 	return true
+}
+
+// isolatedFreshTarget: v points to memory allocated in this function, and nothing this function ever stores into those
+// allocations is a reference to anything else than those allocations (so an external that writes "what is reachable from
+// v" cannot reach any other pre-existing object). Returns the allocation sites.
+func (e *Enc) isolatedFreshTarget(v ssa.Value) ([]ssa.Value, bool) {
+	ri := classifyRoot(v, e.fn, map[ssa.Value]bool{})
+	if ri.kind != rootFresh || len(ri.sites) == 0 {
+		return nil, false
+	}
+	in := map[ssa.Value]bool{}
+	for _, s := range ri.sites {
+		in[s] = true
+		if a, ok := s.(*ssa.Alloc); ok {
+			// a target whose static type contains interfaces or pointers to types with custom unmarshalers may reach
+			// further; the check below (stores) covers what this function put there, zero values reach nothing
+			_ = a
+		}
+	}
+	for changed := true; changed; {
+		changed = false
+		for _, b := range e.fn.Blocks {
+			for _, ins := range b.Instrs {
+				st, ok := ins.(*ssa.Store)
+				if !ok {
+					continue
+				}
+				ar := classifyRoot(st.Addr, e.fn, map[ssa.Value]bool{})
+				if ar.kind != rootFresh {
+					continue
+				}
+				hit := false
+				for _, s := range ar.sites {
+					if in[s] {
+						hit = true
+					}
+				}
+				if !hit {
+					continue
+				}
+				switch e.sortOf(st.Val.Type()) {
+				case "Ref", "Slice":
+				default:
+					if _, isStruct := under(st.Val.Type()).(*types.Struct); !isStruct {
+						continue
+					}
+				}
+				vr := classifyRoot(st.Val, e.fn, map[ssa.Value]bool{})
+				if vr.kind != rootFresh {
+					return nil, false
+				}
+				for _, s := range vr.sites {
+					if !in[s] {
+						in[s] = true
+						ri.sites = append(ri.sites, s)
+						changed = true
+					}
+				}
+			}
+		}
+	}
+	return ri.sites, true
 }
